@@ -331,6 +331,31 @@ def run(world, rep, tier, only=None):
            any((T.path(arg(n, 0)) or "").endswith("move_blocks") for n in mk),
            "marks in rfs->reserve_blocks and rfs->move_blocks: %s" % sorted({T.path(arg(n, 0)) for n in mk}))
 
+    # ------------------------------------------------------------------ C20.h whatever lies where a new backup will go is found, whoever owns it
+    # When a resize needs more descriptor blocks, mark_fs_metablock() decides for each block of every backup group's
+    # new descriptor area what occupies it now.  With flex_bg a bitmap or inode table of *any* group can lie there
+    # (packed_meta_blocks, tables moved by an earlier resize or e2fsck): the search for the owner runs over all groups
+    # of the old file system - from 0, to old_fs->group_desc_count - or the backup is written over a live table.
+    mm = rs.fn("mark_fs_metablock", "resize/resize2fs.c")
+    owner_tests = [n for n in mm.call_nodes() if is_call(n, "is_block_bm", "is_inode_bm", "is_inode_tb")] + \
+        [mm.block_end(b) for b in mm.blocks if mm.literal(b) and
+         any(cc.get("fn") in ("is_block_bm", "is_inode_bm", "is_inode_tb") for cc in T.calls(mm.literal(b)[0]))]
+    heads = sorted({loop_head(mm, n) for n in owner_tests} - {None})
+    rep.floor("C20.h owner search loop in mark_fs_metablock", len(heads), 1)
+    for hb in heads:
+        cond = (mm.blocks[hb].get("t") or {}).get("c")
+        a0 = T.strip(cond) if isinstance(cond, dict) else None
+        iv = bound = None
+        if isinstance(a0, dict) and a0.get("k") == "b" and a0.get("o") in ("<", ">", "!="):
+            l_, r_ = (a0["l"], a0["r"]) if a0["o"] in ("<", "!=") else (a0["r"], a0["l"])
+            iv, bound = T.path(l_), r_
+        whole = bound is not None and "group_desc_count" in T.field_names(bound) and "old_fs" in (T.pp(bound) or "")
+        body = natural_loops(mm).get(hb, set())
+        inits = [n for n in mm.events("S") if T.path(n.ev["lhs"]) == iv and n not in body]
+        from0 = bool(inits) and all(n.ev.get("o") == "=" and T.const(n.ev.get("rhs")) == 0 for n in inits)
+        rep.ob("C20.h", site(mm, "owner of a block in a backup area is searched among all old groups"), whole and from0,
+               "loop `%s`: runs to old_fs->group_desc_count: %s; starts at 0: %s" % (T.pp(cond or {})[:50], whole, from0))
+
     # ------------------------------------------------------------------ C20.f the backup search starts afresh for every block size
     # get_backup_sb() tries each block size in turn and, for each, walks the prescribed backup groups with the
     # ext2fs_list_backups() iterator.  The iterator state must be initialised inside the block-size loop: initialised
